@@ -244,6 +244,12 @@ def token_part(ctx, out):
         elif res == "granted" and cls in TOKEN_MUST_REJECT:
             why = "granted although " + TOKEN_MUST_REJECT[cls]
             cls_sig = cls
+        elif res == "granted" and (op["tok"]["claims"].get("exp") is None or not (op["now"] < op["tok"]["claims"]["exp"])):
+            why = f"granted although now ({op['now']}) is not before exp ({op['tok']['claims'].get('exp')}): the token has no bounded lifetime"
+            cls_sig = "lifetime-unbounded"
+        elif res == "granted" and (op["tok"]["claims"].get("iat") is None or op["tok"]["claims"]["exp"] - op["tok"]["claims"]["iat"] > 1470 * 60):
+            why = f"granted although exp - iat = {op['tok']['claims']['exp'] - op['tok']['claims']['iat']} s exceeds 24.5 h"
+            cls_sig = "lifetime-too-long"
         elif res == "granted" and op.get("by") not in ("signer",):
             why = f"granted although no authorised key owned by the issuer signed it (signed by: {op.get('by')})"
             cls_sig = "not-signed-by-owner"
